@@ -359,12 +359,8 @@ func (vfs *OrefaFS) Link(oldname, newname string) error {
 		return &os.LinkError{Op: op, Old: oldname, New: newname, Err: vfs.err.NoSuchFile}
 	}
 
-	oChild.mu.Lock()
-	defer oChild.mu.Unlock()
-
-	nParent.mu.Lock()
-	defer nParent.mu.Unlock()
-
+	// the type of a node never changes, it can be tested before locking:
+	// a directory and its own child directory must not be locked together.
 	if oChild.mode.IsDir() {
 		err := error(avfs.ErrOpNotPermitted)
 		if vfs.OSType() == avfs.OsWindows {
@@ -373,6 +369,12 @@ func (vfs *OrefaFS) Link(oldname, newname string) error {
 
 		return &os.LinkError{Op: op, Old: oldname, New: newname, Err: err}
 	}
+
+	oChild.mu.Lock()
+	defer oChild.mu.Unlock()
+
+	nParent.mu.Lock()
+	defer nParent.mu.Unlock()
 
 	if nChildOk {
 		err := vfs.err.FileExists
